@@ -8,7 +8,7 @@ from facts import strip, lit_value, pp, loc, path_of
 from norm import nbody, walk_all, unblock
 from report import AnchorLost
 from tables import const_eval
-from r_io import closure_of, decode_roots, encode_roots, _closure_body
+from r_io import closure_of, decode_roots, encode_roots, _closure_body, all_bodies
 from r_poll import _parents, _ancestors
 
 UNSIGNED = ("usize", "u32", "u16", "u8", "u64")
@@ -190,9 +190,13 @@ def _discharge(F, f, b, par, kind, x, text):
                         return "G-dom-gt: the only write to %s in `while %s > 0`" % (name, name)
         return None
     if kind == "index":
-        lhs, idx = x["lhs"], x["index"]
+        if x.get("k") == "Call":
+            lhs, idx = x["args"][0], x["args"][1]
+            lty = (lhs.get("ty") or "").lstrip("&")
+        else:
+            lhs, idx = x["lhs"], x["index"]
+            lty = x.get("lhs_ty") or ""
         iv = const_eval(idx)
-        lty = x.get("lhs_ty") or ""
         import re
         m = re.fullmatch(r"\[\w+; (\d+)\]", lty)
         if iv is not None and m and iv < int(m.group(1)):
@@ -276,6 +280,14 @@ def _discharge(F, f, b, par, kind, x, text):
     if kind in ("index_mut",):
         return None
     return None
+
+
+def _err_free_ty(e):
+    """`u16` for an expression of type Result<u16, _> that was unwrapped by `?`."""
+    ty = (e.get("ty") or "")
+    if ty.startswith("core::result::Result<"):
+        return ty[len("core::result::Result<"):].split(",")[0].strip()
+    return ty
 
 
 def _resolve_let(b, e):
@@ -431,9 +443,83 @@ def s_loop(F, R):
     R.check(not cyc, "S-loop", "no-recursion", "recursive calls in the decode closure: %s" % cyc[:2])
 
 
+def _bounded(F, e, b, f, depth=0, seen=()):
+    """Provenance of an allocation size: (True, why) when the expression is a widened u8/u16, or derives from the
+    fixed header's remaining length (< 2^28, enforced by the var-int readers) by subtraction only."""
+    e = strip(e)
+    while e.get("k") in ("Try", "Await") or (e.get("k") == "Cast" and e.get("ty") in ("usize", "u32", "u64")) or \
+            (e.get("k") == "Call" and e["fn"].get("name") in ("from", "into", "ok_or", "ok_or_else", "unwrap_or", "min") and e["args"] and
+             (e.get("ty") or "").replace("core::result::Result<", "").split(",")[0].strip(" >") in ("usize", "u32", "u64", "core::option::Option<usize")):
+        if (e.get("ty") or "") in ("u8", "u16"):
+            break
+        if e.get("k") == "Cast" and e.get("from_ty") in ("u8", "u16"):
+            return True, "widened %s" % e["from_ty"]
+        e = strip(e["e"] if e.get("k") != "Call" else e["args"][0])
+    ty = _err_free_ty(e).lstrip("&")
+    if ty in ("u8", "u16"):
+        return True, "a %s" % ty
+    if depth > 4:
+        return False, "provenance too deep"
+    k = e.get("k")
+    if k == "Field" and e.get("name") == "remaining_len" and (e.get("adt") or "").endswith("::Header"):
+        return True, "header.remaining_len"
+    if k == "Call" and e["fn"].get("name") == "remaining_len" and (e["fn"].get("trait") or "").endswith("PollHeader"):
+        return True, "PollHeader::remaining_len"
+    if k == "Binary" and e.get("op") in ("Sub", "Div", "Rem", "Shr", "BitAnd"):
+        return _bounded(F, e["l"], b, f, depth + 1, seen)
+    if k == "Call" and e["fn"].get("name") in ("checked_sub", "saturating_sub") and e["args"]:
+        return _bounded(F, e["args"][0], b, f, depth + 1, seen)
+    if k == "Call" and (e["fn"].get("res") or e["fn"].get("def")) in F.fns and F.fns[e["fn"].get("res") or e["fn"].get("def")].get("thir"):
+        # a helper of the crate: its result expression, with parameters traced back to every call site
+        cid = e["fn"].get("res") or e["fn"].get("def")
+        cf = F.fns[cid]
+        cb = nbody(F, cid)
+        tail = unblock(cb)
+        okk, why = _bounded(F, tail, cb, cf, depth + 1, seen + (("call", cid),)) if ("call", cid) not in seen else (True, "recursive")
+        return okk, "%s: %s" % (cid, why)
+    if k == "Var":
+        vid = e["var"]["id"]
+        if (f["id"], vid) in seen:
+            return True, "the variable itself, decreased"
+        seen = seen + ((f["id"], vid),)
+        # only decreasing updates
+        for n in walk_all(b):
+            if n.get("k") in ("Assign", "AssignOp") and strip(n["l"]).get("k") == "Var" and strip(n["l"])["var"]["id"] == vid:
+                if n["k"] == "AssignOp" and n.get("op") in ("SubAssign", "DivAssign", "RemAssign", "ShrAssign"):
+                    continue
+                if n["k"] == "Assign":
+                    okk, why = _bounded(F, n["r"], b, f, depth + 1, seen)
+                    if okk:
+                        continue
+                return False, "%s is updated by %s" % (e["var"].get("name"), pp(n)[:60])
+        init = _resolve_let(b, e)
+        if init is not e:
+            return _bounded(F, init, b, f, depth + 1, seen)
+        # a parameter: every call site in the crate passes a bounded expression
+        params = [(i, p) for i, p in enumerate(q for q in f["thir"]["params"] if q.get("pat") is not None)
+                  if p["pat"].get("k") == "Binding" and p["pat"]["var"]["id"] == vid]
+        if params:
+            idx = params[0][0]
+            sites = 0
+            for fid2, f2, b2 in all_bodies(F):
+                for c in walk_all(b2):
+                    if c.get("k") == "Call" and (c["fn"].get("res") or c["fn"].get("def")) == f.get("def", f.get("id")):
+                        sites += 1
+                        if idx >= len(c["args"]):
+                            return False, "call site with fewer arguments"
+                        okk, why = _bounded(F, c["args"][idx], b2, f2, depth + 1, seen)
+                        if not okk:
+                            return False, "call site in %s passes %s (%s)" % (f2["root"], pp(c["args"][idx])[:60], why)
+            if sites:
+                return True, "parameter bounded at its %d call sites" % sites
+            return False, "parameter %s without call sites in the crate" % e["var"].get("name")
+    return False, "%s is not derived from a u16 length or the remaining length" % pp(e)[:80]
+
+
 def s_alloc(F, R):
-    """Every allocation size in the decode closure is a declared length bounded by the format: a u16
-    widened, or a remaining length / property length below 2^28."""
+    """Every allocation size in the decode closure is a declared length bounded by the format: a u8/u16
+    widened, or derived from the header's remaining length (< 2^28) by subtraction only (provenance is
+    followed through local variables and through parameters to every call site in the crate)."""
     n = 0
     for fid, f, b in _bodies(F, decode_roots(F)):
         for x in walk_all(b):
@@ -445,12 +531,7 @@ def s_alloc(F, R):
                 if f["root"].endswith("encode_packet"):
                     continue
                 n += 1
-                size = strip(x["args"][-1])
-                s = pp(size)
-                ok = s in ("(data_len as usize)", "remaining_len", "common::poll::PollHeader::remaining_len(&header)") or \
-                    (size.get("k") == "Call" and size["fn"].get("name") == "from" and size.get("ty") == "usize" and
-                     (size["args"][0].get("ty") or "").lstrip("&") in ("u16", "u8")) or \
-                    (size.get("k") == "Cast" and size.get("ty") == "usize" and size.get("from_ty") in ("u16", "u8"))
+                ok, why = _bounded(F, x["args"][-1], b, f)
                 R.check(ok, "S-alloc", "%s/%s" % (f["root"], d.rsplit("::", 1)[1]),
-                        "%s allocates %s bytes: not a u16 length or a remaining length" % (f["root"], s), where=loc(x))
+                        "%s allocates %s bytes: %s" % (f["root"], pp(strip(x["args"][-1]))[:80], why), where=loc(x))
     R.floor("S-alloc", "allocation sites", n, 5)
